@@ -1,5 +1,6 @@
 """Shard worker: python -m vmon.worker <in.json> <out.json>  (one process, monitors installed)."""
 import json
+import os
 import sys
 import time
 import traceback
@@ -38,8 +39,22 @@ def main():
                 r = mod.run_case(case)
         except MemoryError:
             r = {"harness_error": "MemoryError"}
-        except Exception:
-            r = {"harness_error": traceback.format_exc()[-2000:]}
+        except Exception as exc:
+            # every call the harness makes outside cm.call (constructors, setters, assign_norm_cont, make_contractions for a
+            # shared basis ...) is legitimate use: an exception RAISED INSIDE gbasis on such a call is an observation about the
+            # library, not a harness failure. Anything raised by harness code itself stays a harness error (inconclusive).
+            tb = exc.__traceback__
+            last = None
+            while tb is not None:
+                last = tb.tb_frame.f_code.co_filename
+                tb = tb.tb_next
+            inside = bool(last) and os.path.realpath(last).startswith(os.path.realpath(os.path.join(env.REPO, "gbasis")) + os.sep)
+            if inside:
+                r = {"evals": 1, "nontrivial": True, "classes": case.get("classes", []), "errs": {},
+                     "violations": [{"what": "a legitimate call made by the harness raised inside the library: %s: %s  [%s]" % (
+                         type(exc).__name__, str(exc)[:200], traceback.format_exc()[-600:].replace("\n", " | ")), "qty": "exception:harness-step", "exc_type": type(exc).__name__}]}
+            else:
+                r = {"harness_error": traceback.format_exc()[-2000:]}
         r["cid"] = case["cid"]
         if isinstance(r.get("classes"), list):
             r["classes"] = r["classes"] + ["call-style:" + style]
